@@ -46,7 +46,7 @@ ASSUMPTIONS = [
     'source dtype (float32 for float32, binary64 otherwise): mean n*eps*max|x|, median 2*eps*max|x| with eps 2^-23 / 2^-52; '
     'integers beyond 2^53 are printed through binary64 (allowance |x|*2^-53); first/min/max of floats: none',
     'the reader is given a reference ~V/~W header (VERS 2.0, WRAP NO, NULL -999.25) in front of the written sections',
-    'masking of read-back values equal to -999.25 is not part of the statement and is ignored (data compared under the mask)',
+    'values are compared under the mask of the read-back array; a masked cell must print as the null value -999.25 (a number near it is data)',
     'names / units that the header typing rule would change (F09, owned by C09) are a small measured class and are matched by '
     "F09's signature field-retyped:*; names that would collide with channel indexes (NO, YES, small integers) are not generated",
 ]
@@ -92,7 +92,9 @@ def float_values(draw, dtype, n):
     if k <= 3:
         elem = fl(-1024.0, 1024.0)
     elif k <= 5:
-        elem = st.one_of(fl(-2.0 ** 20, 2.0 ** 20), fl(-1.0, 1.0), st.sampled_from((0.0, -999.25, 1.0, -1.0, 0.5, 2.5, 0.125)))
+        elem = st.one_of(fl(-2.0 ** 20, 2.0 ** 20), fl(-1.0, 1.0), st.sampled_from((0.0, -999.25, 1.0, -1.0, 0.5, 2.5, 0.125)),
+                         # ... and numbers next to the null value that are not the null value
+                         st.sampled_from((-999.255, -999.2499, -999.26, -999.24, -999.2505, -999.0, -999.3, 999.25)))
     elif k == 6:
         elem = fl(-2.0 ** 50, 2.0 ** 50)
     elif k == 7:
@@ -499,11 +501,17 @@ def check(case, cc, fa=None, subset_obj=None):
             continue
         if not rows_ok:
             continue
+        mask = np.ma.getmaskarray(ch.array)
+        null = lasfmt.parse_number('-999.25').value
         for f in range(nfr):
             p = lasfmt.parse_number(rows[f][k])
             got = float(data[f, 0])
             if p is not None and not (got == p.as_float()):
                 dev('readback-value-exact', 'value-wrong', 'frame %d channel %d: token %r read as %r' % (f, k, rows[f][k], got))
+            # a value that is marked absent (masked) must be the null value of the header: a number that merely lies near it is data
+            if p is not None and bool(mask[f, 0]) and p.value != null:
+                dev('readback-value-exact', 'value-masked-that-is-not-the-null-value', 'frame %d channel %d: token %r (not %s) comes back masked' % (
+                    f, k, rows[f][k], '-999.25'))
 
 
 @st.composite
